@@ -171,6 +171,39 @@ theorem export_import_any_layout (fmt : Format) (s : StoredDataset) (f : Layout 
   simp only [roundTripStored, specOkStored, relayout_values]
   exact roundTrip_spec fmt s.values sel comps hP
 
+/-- Re-creating every component object (and the `Data` object) in another state does not change
+the values … -/
+theorem restate_values (g : Nat → CompState → CompState) (h : DataState → DataState)
+    (s : StoredDataset) : (s.restate g h).values = s.values := by
+  simp only [StoredDataset.restate, StoredDataset.values, List.map_map, Function.comp_def,
+    Dataset.mk.injEq, true_and]
+  exact zipIdx_map_fst s.cols (·.col)
+
+/-- **The round trip depends on the values only, not on the state of the objects that hold them.**
+Whatever is done to the component objects — display jitter switched on (so that `codes` is no
+longer an index), an explicit unsorted `categories=` list with unused entries, units, a rename after
+creation, a derived component fed by another (stateful) component instead of the pixel grid — and
+to the `Data` object — its label, the `np.random` state it was built under, a session save /
+restore, a WCS, further components that are not requested —: the model round trip, the quantifier,
+the domain and the set of results the Spec accepts are unchanged, and inside `P` the round trip of
+the re-stated dataset is accepted by the Spec *of the original*.  (The driver runs
+`roundTripStored` / `specOkStored` on the state-tagged case the harness built; a real exporter that
+reads object state instead of `data[cid]` / `cid.label` therefore fails comparison (a) and, inside
+the quantifier, the Spec — a state-dependent export is a violation by definition.) -/
+theorem component_state_irrelevant (fmt : Format) (s : StoredDataset)
+    (g : Nat → CompState → CompState) (h : DataState → DataState)
+    (sel : Option (List Bool)) (comps : Option (List Nat)) :
+    roundTripStored fmt (s.restate g h) sel comps = roundTripStored fmt s sel comps ∧
+    inQuantifierStored fmt (s.restate g h) sel comps = inQuantifierStored fmt s sel comps ∧
+    inDomainStored fmt (s.restate g h) sel comps = inDomainStored fmt s sel comps ∧
+    (∀ out, specOkStored fmt (s.restate g h) sel comps out = specOkStored fmt s sel comps out) ∧
+    (inDomainStored fmt s sel comps = true →
+      ∃ out, roundTripStored fmt (s.restate g h) sel comps = .ok out ∧
+        specOkStored fmt s sel comps out = true) := by
+  simp only [roundTripStored, inQuantifierStored, inDomainStored, specOkStored, restate_values,
+    implies_true, true_and]
+  exact roundTrip_spec fmt s.values sel comps
+
 /-- **Chained round trips** (`export A → load → export B → load`, e.g. FITS → HDF5): if the first
 hop is in `P`, it loads to at least one dataset that the Spec accepts, and for *every* dtype kinds
 the first reader may have chosen such that the loaded dataset is again in `P` for `B`, the second
@@ -260,7 +293,21 @@ theorem hdf5_zero_fill_ambiguous :
   decide +kernel
 
 /-- the table `tbl` stored big-endian / strided / as an object array … -/
-def tblStored : StoredDataset := ⟨[3], (tbl.cols.zip [.swapped, .strided, .object]).map fun p => ⟨p.1, p.2⟩⟩
+def tblStored : StoredDataset :=
+  ⟨[3], (tbl.cols.zip [.swapped, .strided, .object]).map fun p => ⟨p.1, p.2, {}⟩, {}⟩
+
+/-- … and held by objects in a non-trivial state: units on the first component, the text component
+jittered with an explicit category list and renamed, the `Data` restored from a session under the
+label `a/b`: same values, same quantifier, and the states really are there. -/
+def tblStated : StoredDataset :=
+  tblStored.restate
+    (fun i st => if i = 2 then { jitter := true, cats := some 1, oldName := some [116] }
+      else if i = 0 then { st with units := some [107, 109] } else st)
+    (fun st => { st with label := [97, 47, 98], restored := true, seed := 7 })
+
+example : tblStated.values.cols = tbl.cols ∧ tblStated.stateful = true ∧ tblStored.stateful = false ∧
+    tblStated.cols.map (·.state.jitter) = [false, false, true] ∧
+    inDomainStored .csv tblStated (some [true, false, true]) none = true := by decide +kernel
 
 example : inDomainStored .hdf5 tblStored (some [true, false, true]) none = true := by decide +kernel
 example : (tblStored.relayout fun _ => .fitslike).values.cols = tbl.cols ∧
